@@ -34,7 +34,7 @@ class Foreign(Exception):
 
 class IterState:
     __slots__ = ("view", "twin", "gen_s", "gen_t", "cur_s", "cur_t", "yields", "dirty", "started", "perturbed",
-                 "pre", "variants")
+                 "pre", "variants", "read_since_yield", "tainted")
 
     def __init__(self, view, twin, gen_s, gen_t, pre):
         self.view = view
@@ -49,10 +49,17 @@ class IterState:
         self.perturbed = 0
         self.pre = pre
         self.variants = []  # [state, sequence, generator, current message] - same content, other freshness states
+        # Within one iteration step the documented contract has exactly one transient: an edit made *after* the other view
+        # was re-read in the same step is not visible through that (already regenerated) view until the next advance / close.
+        # `tainted` marks that window; everywhere else - in particular edit-then-read - the views must agree.
+        self.read_since_yield = False
+        self.tainted = False
 
     def phase(self):
         if not self.started:
             return "opened"
+        if self.tainted:
+            return "susp-tainted"
         return "susp-dirty" if self.dirty else "susp-clean"
 
 
@@ -339,7 +346,7 @@ class C04World:
     def _read(self, slot, op, args, pre, in_iter=None):
         S = slot.seq
         key = {"op": op, "pre": pre}
-        judge = in_iter is None or not in_iter.dirty
+        judge = in_iter is None or not in_iter.tainted
         before = canon_value(S) if judge else None
         _, e = _call(OPS[op][2], S, args)
         if e is not None:
@@ -363,7 +370,7 @@ class C04World:
         else:
             if S._abs_stale:
                 return "skip:L4"
-        judge = in_iter is None or not in_iter.dirty
+        judge = in_iter is None or not in_iter.tainted
         before = canon_value(S) if judge else None
         if op == "drop_abs":
             _, e = _call(S.invalidate_abs)
@@ -476,6 +483,8 @@ class C04World:
         it.cur_s, it.cur_t = ms, mt
         it.yields += 1
         it.dirty = False
+        it.read_since_yield = False
+        it.tainted = False
         self._variants_advance(it, op, key, False, ms)
         return False
 
@@ -563,6 +572,8 @@ class C04World:
                 if var[3] is not None:
                     setattr(var[3], r[0], r[1])
             it.dirty = True
+            if it.read_since_yield:
+                it.tainted = True
             self.mutations += 1
             self.stats[f"op/iter_{view}:edit"] += 1
             if it.perturbed:
@@ -575,6 +586,7 @@ class C04World:
             out = self._drop(slot, op, pre, in_iter=it)
             if out == "ok":
                 it.perturbed += 1
+                it.read_since_yield = True
                 self.stats[f"reach_iter_phase/{phase}|{op}"] += 1
             return out
         legal = op in seqops.ITER_SAFE_READS or (view == "rel" and op in ("equals", "get_message_pairings",
@@ -582,8 +594,8 @@ class C04World:
         if not legal:
             return "skip:L2"
         if op == "copy":
-            if it.dirty:
-                return "skip:L2-copy-in-dirty-window"
+            if it.tainted:
+                return "skip:L2-copy-in-tainted-window"
             c, e = _call(S.copy)
             if e is not None:
                 raise _V(Violation("UNREADABLE", f"copy() raised {type(e).__name__}: {e} during iteration", {"op": op, "pre": pre}))
@@ -593,6 +605,7 @@ class C04World:
                 raise _V(Violation("PERTURB", f"copy taken during iteration differs from original: "
                                    f"{first_diff(list(st), list(sc))}"[:600], {"op": op, "pre": pre}))
             it.perturbed += 1
+            it.read_since_yield = True
             self.perturbations += 1
             self.stats["fault/copy"] += 1
             self.stats[f"reach_iter_phase/{phase}|copy"] += 1
@@ -604,7 +617,7 @@ class C04World:
             out = self._read(slot, op, args, pre, in_iter=it)
         else:
             # pure getter: S only; value is not judged here (the per-step twin judges getters outside iterations)
-            judge = not it.dirty
+            judge = not it.tainted
             before = canon_value(S) if judge else None
             _, e = _call(OPS[op][2], S, args)
             if e is not None:
@@ -617,9 +630,12 @@ class C04World:
                     raise _V(Violation("PERTURB", f"{op} during iteration changed the music", {"op": op, "pre": pre}))
             out = "ok"
         it.perturbed += 1
+        it.read_since_yield = True
         self.stats[f"reach_iter_phase/{phase}|read"] += 1
         if phase == "susp-dirty":
-            self.stats["reach_iter/read_between_edit_and_next_step"] += 1
+            self.stats["reach_iter/read_judged_between_edit_and_next_step"] += 1
+        if phase == "susp-tainted":
+            self.stats["reach_iter/read_unjudged_in_tainted_window"] += 1
         return out
 
     def finish(self):
